@@ -1,5 +1,6 @@
 import VyxalModel.Model.Transpile
 import VyxalModel.Model.Placed
+import VyxalModel.Lemmas.ParseToks
 import VyxalModel.Lemmas.Strings
 import VyxalModel.Lemmas.Number
 import VyxalModel.Lemmas.LexInv
@@ -732,6 +733,15 @@ theorem names_from_vocabulary (env : TEnv) (hT : TablesHoles env) (prog : List S
     obtain ⟨c, k'⟩ := r
     simp [htl] at ht; subst ht
     exact holes_orPass c (trL_holes env hT prog 0 c k' hp htl)
+
+/-- **C18, from the source text**: for *every* source string — any characters at all — whose token list parses and
+    transpiles, every program-derived identifier of the generated Python is sanitised and everything else the program
+    supplies is a constant.  No hypothesis on the program is left: the lexer's guarantee (`lex_variable_letters`) and the
+    parser's (`parse_vtok`: it only puts tokens of its input into the tree) discharge `vtokL`. -/
+theorem names_from_vocabulary_source (env : TEnv) (hT : TablesHoles env) (src : Str) (tree : List Structure)
+    (hp : parseTop (tokenise src) = .ok tree) (code : List PyStmt) (ht : transpileAst env tree = .ok code) :
+    holesL code = true :=
+  names_from_vocabulary env hT tree (parseTop_vtok (tokenise src) (lex_variable_letters src) tree hp) code ht
 
 theorem gen_tables_holes (env : TEnv) (he : env.elements = Gen.elements) (hm : env.modifiers = Gen.modifiers) : TablesHoles env := by
   unfold TablesHoles; rw [he, hm]; exact tables_have_no_program_holes
